@@ -14,7 +14,7 @@ BUDGET = {"quick": 1600, "thorough": 40000}
 SHARDS = {"quick": 8, "thorough": 16}
 RULE = (
     "case = sampler class (MiniPCNSMC, EmceeSMC, BlackJAXSMC.log_prob, MiniPCN, Emcee) x preconditioning (none, periodic, "
-    "logit, probit, affine, bounded+affine, periodic+bounded) x namespace x width x beta in (0,1] (tiny, generic, exactly 1) x "
+    "logit, probit, affine, bounded+affine, periodic+bounded, flow-based map with a tiny Zuko flow) x namespace x width x beta in (0,1] (tiny, generic, exactly 1) x "
     "points z (images of in-box points driven to the bounds, offsets into the tails, points outside the prior support when no "
     "bounded map is active, points outside the proposal's support) x generated Gaussian likelihood, hard-support uniform prior, "
     "analytic proposal (normal / logit-normal / uniform). The sampler is obtained from Aspire.init_sampler and its log_prob is "
@@ -28,7 +28,7 @@ RULE = (
 ASSUMPTIONS = [
     "value tolerance 64*eps*(sum of |terms|+1) + log-Jacobian conditioning term 8*eps/min(u,1-u) per bounded coordinate",
     "pre-image tolerance 64*eps*(|lower|+|upper|+width) (stateless maps) ",
-    "for preconditioning with a fitted affine part the pre-image and log-Jacobian reference is the transform's own inverse "
+    "for preconditioning with a fitted affine part or a flow-based map the pre-image and log-Jacobian reference is the transform's own inverse "
     "(whose correctness is C04's subject); the composition in log_prob is still checked independently",
     "BlackJAXSMC.mutate cannot run (blackjax absent); only its log_prob is exercised",
     "|z| offsets are limited so that sigmoid / erf do not saturate in the requested width (a saturated map has log-Jacobian -inf by rounding)",
@@ -47,6 +47,8 @@ def _case(draw):
     width = draw(st.sampled_from(["float32", "float64", "float64"]))
     d = draw(st.integers(1, 3))
     pre = draw(st.sampled_from(PRECOND))
+    if ns in ("numpy", "torch") and sampler != "blackjax_smc" and draw(st.integers(0, 7)) == 0:
+        pre = "flow"  # flow-based preconditioning map (tiny Zuko flow trained for 2 epochs on the fitting points)
     lo = [draw(st.sampled_from([0.0, -1.0, -5.0, 2.0, 100.0])) for _ in range(d)]
     hi = [l + draw(st.sampled_from([1.0, 2.0, 6.283185307179586, 10.0, 0.05])) for l in lo]
     n = draw(st.integers(1, 12))
@@ -63,7 +65,7 @@ def _case(draw):
         "qloc": [draw(st.floats(-1.0, 1.0)) for _ in range(d)], "qscale": [draw(st.floats(0.3, 3.0)) for _ in range(d)],
         "fit_seed": draw(st.integers(0, 2**31 - 1)),
         "periodic_dims": sorted(draw(st.sets(st.integers(0, d - 1), min_size=1, max_size=d))) if "periodic" in pre else [],
-        "mode": "run" if (sampler in ("smc", "emcee_smc") and "affine" not in pre and draw(st.integers(0, 5)) == 0) else "direct",
+        "mode": "run" if (sampler in ("smc", "emcee_smc") and "affine" not in pre and pre != "flow" and draw(st.integers(0, 5)) == 0) else "direct",
         "seed": draw(st.integers(0, 2**31 - 1)),
     }
     if case["mode"] == "run":
@@ -128,7 +130,9 @@ def _make(case, rec):
     a = Aspire(log_likelihood=log_likelihood, log_prior=log_prior, dims=d, parameters=params,
                prior_bounds={p: [float(lo[i]), float(hi[i])] for i, p in enumerate(params)},
                periodic_parameters=[params[i] for i in case["periodic_dims"]] or None,
-               flow=flow, flow_backend="pbt_analytic", xp=xp, dtype=dt)
+               xp=xp, dtype=dt,
+               **({"flow": flow, "flow_backend": "zuko", "hidden_features": [8], "transforms": 1, "seed": case["seed"] % 10**6}
+                  if case["pre"] == "flow" else {"flow": flow, "flow_backend": "pbt_analytic"}))
     return a, flow, lo, hi
 
 
@@ -136,6 +140,8 @@ def _precond_kwargs(case):
     pre = case["pre"]
     if pre == "none":
         return "none", None
+    if pre == "flow":
+        return "flow", {"fit_kwargs": {"n_epochs": 2, "batch_size": 24}}
     kw = {"affine_transform": "affine" in pre, "bounded_to_unbounded": ("logit" in pre or "probit" in pre)}
     if "probit" in pre:
         kw["bounded_transform"] = "probit"
@@ -182,7 +188,9 @@ def _points(case, a_sampler, lo, hi, xp, dt):
     if "probit" in case["pre"]:
         lim = 4.5 if case["width"] == "float32" else 7.5
     pre = case["pre"]
-    if pre == "none" or pre == "periodic":
+    if pre == "flow":
+        z = z + np.clip(off, -3.0, 3.0)
+    elif pre == "none" or pre == "periodic":
         z = z + off * w  # may leave the prior support
     else:
         z = np.clip(z + off, -lim, lim) if ("logit" in pre or "probit" in pre) else z + off
@@ -210,7 +218,7 @@ def _check_batch(case, ctx, sampler, z64, val, beta, rec, lo, hi, is_smc, tag=""
     xs = {k: rec.calls[k][-1][0].reshape(n, -1) for k in need}
     vs = {k: rec.calls[k][-1][1].reshape(-1) for k in need}
     # pre-image
-    stateless = "affine" not in case["pre"]
+    stateless = "affine" not in case["pre"] and case["pre"] != "flow"
     if stateless:
         x_ref, lj_ref, cond = _ref_inverse(case, z64, lo, hi)
     else:
